@@ -5,8 +5,8 @@
     [orders_pos] = every stored bond order > 0;  [geq_sel G' G] = same atoms with equal element, aromatic,
     hcount, charge and equal bond maps;  [amap_id] = atom_map is the node id;  orders are half-units. *)
 From Coq Require Import List NArith ZArith Bool.
-From SK Require Import lib.LGraph lib.C01_GraphLemmas model.C01_Model model.C02_Model model.C01_Opts model.C01_String model.C01_Renum
-  proof.C01_Proof proof.C01_OptsProof proof.C01_StringProof proof.C01_StringHyd proof.C01_StringPipe proof.C01_StringEH proof.C01_StringRenum proof.C01_StringHydExt proof.C01_RenumCentre proof.C01_RenumWrite proof.C01_StringEHwf.
+From SK Require Import lib.LGraph lib.C01_GraphLemmas model.C01_Model model.C02_Model model.C01_Opts model.C01_String model.C01_Renum model.C01_Attrs model.C01_CleanWc
+  proof.C01_Proof proof.C01_OptsProof proof.C01_StringProof proof.C01_StringHyd proof.C01_StringPipe proof.C01_StringEH proof.C01_StringRenum proof.C01_StringHydExt proof.C01_RenumCentre proof.C01_RenumWrite proof.C01_StringEHwf proof.C01_AttrsProof proof.C01_StringPipeH proof.C01_CleanWcProof.
 Import ListNotations.
 Local Open Scope Z_scope.
 
@@ -350,3 +350,99 @@ Print Assumptions C01_its_to_graphs_renumber.
 Theorem C01_h_to_explicit_wf : forall I : its, wf I -> wf (fst (h_to_explicit_its I)).
 Proof. exact h_to_explicit_its_wf. Qed.
 Print Assumptions C01_h_to_explicit_wf.
+
+(** ------------------------------------------------------------------------------------------------
+    CALLER-CHOSEN node_attrs (model/C01_Attrs.v): construct(G, H, node_attrs=L) writes typesGH in the ORDER of L (values
+    untyped, [aval]); its_decompose reads typesGH POSITIONALLY: element = [0], aromatic = [1], hcount = [2], charge = [3]. *)
+
+(** 24. whenever the caller's list starts with the legacy order (element, aromatic, hcount, charge) - whatever follows,
+        known names, repetitions or unknown names - the positional decomposition never fails and is exactly the
+        decomposition of the legacy ITS (so theorem 1 gives the round trip) *)
+Theorem C01_attrs_legacy_prefix : forall (rest : list akey) (G H : mgraph),
+  its_decompose_A (its_construct_A (KEl :: KAr :: KHc :: KCh :: rest) G H) =
+  Some (LG (map (fun p => (fst p, untyped (snd p))) (gnodes (fst (its_decompose (its_construct G H)))))
+           (gedges (fst (its_decompose (its_construct G H)))),
+        LG (map (fun p => (fst p, untyped (snd p))) (gnodes (snd (its_decompose (its_construct G H)))))
+           (gedges (snd (its_decompose (its_construct G H))))).
+Proof. exact attrs_legacy_prefix. Qed.
+Print Assumptions C01_attrs_legacy_prefix.
+
+(** 25. for a list in another order the round trip FAILS by construction of its_decompose (not a defect of construct:
+        its_decompose cannot know the list; rsmi_to_its therefore always passes the legacy list - a change that forwards the
+        caller's list, seeded C01-w3-1, breaks the property).  Witness: the six names sorted alphabetically; the
+        decomposition's "element" of atom 1 is the aromatic flag, its "charge" the element *)
+Theorem C01_attrs_order_refuted :
+  exists G H : mgraph, wf G /\ wf H /\ same_nodes G H /\ orders_pos G /\ orders_pos H /\
+    exists a b, its_decompose_A (its_construct_A [KAr; KAm; KCh; KEl; KHc; KNb] G H) = Some (a, b) /\
+                a <> LG (map (fun p => (fst p, untyped (snd p))) (gnodes (fst (its_decompose (its_construct G H)))))
+                        (gedges (fst (its_decompose (its_construct G H)))) /\
+                label a 1%N = Some (VB false, VZ 1, VZ 0, VS 70%N).
+Proof. exact attrs_order_refuted. Qed.
+Print Assumptions C01_attrs_order_refuted.
+
+(** 26. rsmi_to_its(rsmi, node_attrs=L) in the model: the caller's list only selects what MolToGraph stores (a set:
+        order and repetitions are irrelevant); with all six names it IS rsmi_to_its with the defaults; an unselected
+        attribute reads as the core default in typesGH (which is always in the legacy order) *)
+Theorem C01_rsmi_to_its_sel : forall (s : asel) (mr mp : rmol),
+  rsmi_to_its_sel all_sel mr mp = rsmi_to_its_m mr mp /\
+  forall g h J, rsmi_to_graph_m mr mp = Some (g, h) -> rsmi_to_its_sel s mr mp = Some J ->
+    forall n b, label J n = Some b ->
+      i_G b = side_tuple (fill_graph s g) n /\ i_H b = side_tuple (fill_graph s h) n /\
+      (forall a, label g n = Some a -> a_el (i_G b) = (if p_el s then g_el a else EL_STAR) /\
+                                       a_hc (i_G b) = (if p_hc s then g_hc a else 0) /\
+                                       a_ch (i_G b) = (if p_ch s then g_ch a else 0) /\
+                                       a_arom (i_G b) = (if p_ar s then g_arom a else false)).
+Proof. exact rsmi_to_its_sel_spec. Qed.
+Print Assumptions C01_rsmi_to_its_sel.
+
+(** 27. the string round trip for reactions WITH explicit mapped hydrogens under the default writer, relative to a
+        contract on RDKit alone (four premises, written out): for a predicate [ok] on molecule graphs ("RDKit-normal"),
+        P1 what RDKit reads is ok; P2 ok depends only on the labelled graph (element, aromaticity, H count, charge, atom map,
+        bonds); P3 folding explicit hydrogens into H counts (implicit_hydrogen) keeps a well-formed ok graph ok; P4 an ok,
+        well-formed graph with atom_map = id that RDKit writes reads back as itself.
+        Then for every balanced reaction whose sides RDKit reads, its_to_rsmi (rsmi_to_its (r >> p)) reads back, on each
+        side, as the input graph with every hydrogen that is not in the reaction centre folded into its neighbour's H count
+        ([smi_graph G (hlist J)]: theorem 12 says exactly what that is) - the reacting hydrogens stay atoms.
+        NOT proved: P1-P4 for the real RDKit (monitored by the string oracle, which compares modulo spectator hydrogens). *)
+Theorem C01_rsmi_pipeline_hydrogens : forall (str : Type) (rd_read : str -> option rmol) (rd_write : wmol -> option str)
+    (ok : mgraph -> Prop),
+  ((forall s m, rd_read s = Some m -> ok (graph_of m)) /\
+   (forall g g', ok g ->
+      ((forall n, option_map sel5 (label g' n) = option_map sel5 (label g n)) /\ (forall u v, adj g' u v = adj g u v)) -> ok g') /\
+   (forall g pres, ok g -> wf g -> ok (implicit_hydrogen g pres)) /\
+   (forall g w s, ok g -> wf g -> amap_id g -> graph_to_wmol g = Some w -> rd_write w = Some s ->
+      exists m, rd_read s = Some m /\ (NoDup (map fst (mapped_nodes m)) /\ simple (mapped_bonds m)) /\ geq_sel (graph_of m) g)) ->
+  forall r p mr mp, rd_read r = Some mr -> rd_read p = Some mp ->
+  (NoDup (map fst (mapped_nodes mr)) /\ simple (mapped_bonds mr)) ->
+  (NoDup (map fst (mapped_nodes mp)) /\ simple (mapped_bonds mp)) ->
+  let G := graph_of mr in let H := graph_of mp in
+  wf G -> wf H -> same_nodes G H -> orders_pos G -> orders_pos H ->
+  forall J r' p', rsmi_to_its_s rd_read r p = Some J -> its_to_rsmi_s rd_write J = Some (r', p') ->
+  J = its_construct G H /\
+  exists mr' mp', rd_read r' = Some mr' /\ rd_read p' = Some mp' /\
+                  (NoDup (map fst (mapped_nodes mr')) /\ simple (mapped_bonds mr')) /\
+                  (NoDup (map fst (mapped_nodes mp')) /\ simple (mapped_bonds mp')) /\
+                  geq_sel (graph_of mr') (smi_graph G (hlist J)) /\ geq_sel (graph_of mp') (smi_graph H (hlist J)).
+Proof. exact rsmi_pipeline_hydrogens. Qed.
+Print Assumptions C01_rsmi_pipeline_hydrogens.
+
+(** 28. its_to_rsmi(its, clean_wildcards=True) = clean_wc(rsmi) (text level): the reactant side is untouched; the product side
+        stays as it is when every '.'-fragment contains '*', otherwise it becomes ONE of its star-free fragments, of maximal
+        length among them *)
+Theorem C01_clean_wildcards : forall react prod : String.string,
+  fst (clean_wc react prod) = react /\
+  let sf := filter (fun f => negb (has_star f)) (split_dot prod) in
+  (sf = nil -> snd (clean_wc react prod) = prod) /\
+  (sf <> nil -> In (snd (clean_wc react prod)) sf /\
+                forall f, In f sf -> (String.length f <= String.length (snd (clean_wc react prod)))%nat).
+Proof. exact clean_wc_spec. Qed.
+Print Assumptions C01_clean_wildcards.
+
+(** 29. ... hence the option is lossy, wildcards or not: with two star-free product fragments one of them is dropped, and
+        the string round trip of the property is refuted for clean_wildcards=True (by design of clean_wc; `max_frag` is not
+        consulted) *)
+Theorem C01_clean_wildcards_refuted :
+  has_star cw_prod = false /\ split_dot cw_prod = cw_frag1 :: cw_frag2 :: nil /\
+  snd (clean_wc cw_react cw_prod) = cw_frag1 /\ snd (clean_wc cw_react cw_prod) <> cw_prod.
+Proof. exact clean_wc_lossy. Qed.
+Print Assumptions C01_clean_wildcards_refuted.
